@@ -78,7 +78,7 @@ CHECKS = {
                   'oracle correspondence: characteristic functions of the DEM vs the specification with fault variables',
         text='Proof: (G) every unitary undo_* routine of SparseUnsignedRevFrameTracker and its dispatch is regenerated from source and '
              'proved to be the unsigned action of the table\'s inverse gate; adjoint (backward sensitivity = forward fault propagation, '
-             'any circuit over every unitary of the generated gate table, single-qubit Pauli measurements and resets, any n: AdjGen.adjoint_all_gates + TableAdj.table_adjoint; the measurement / reset undo routines of the tracker and of the analyzer itself, regenerated from source, are that theorem\'s backward steps for the documented basis: GenProofs_RevMeas); xor_convolution_merge, conv_comm, depolarize1_independent over Q. Tie O: one symbolic '
+             'any circuit over every unitary of the generated gate table, single-qubit Pauli measurements and resets, any n: AdjGen.adjoint_all_gates + TableAdj.table_adjoint; the measurement / reset undo routines of the tracker and of the analyzer itself, regenerated from source, are that theorem\'s backward steps for the documented basis: GenProofs_RevMeas; the analyzer\'s noise routines incl. the PAULI_CHANNEL_2 index arithmetic flip exactly the detectors anticommuting with the documented Pauli of each argument: GenProofs_EaNoise); xor_convolution_merge, conv_comm, depolarize1_independent over Q. Tie O: one symbolic '
              'run of the specification with a fault variable per elementary fault gives every channel outcome\'s symptom set; the '
              'implementation\'s model must define the same joint distribution, compared through E[(-1)^(s.x)] on all unit vectors, '
              'pairs and random vectors (exact to 1e-7; with approximate_disjoint_errors within the first-order bound 2*P^2 per '
